@@ -376,7 +376,11 @@ func c08RMW(c *Ctx) {
 	// updated list: see below)
 	nElem := 0
 	elemChecks := func(body *ssa.Function, isCellLoad func(ssa.Value) bool, isEntry func(ssa.Value) bool, entryCommand func(ssa.Value) bool) {
-		c08ElemChecks(c, fk, &nElem, body, isCellLoad, isEntry, entryCommand, entry)
+		ep := entry
+		if body != fn && len(body.Params) == 2 {
+			ep = body.Params[1] // the helper computing the updated list: (list, entry)
+		}
+		c08ElemChecks(c, fk, &nElem, body, isCellLoad, isEntry, entryCommand, ep)
 	}
 	elemChecks(fn, isCellLoad, isEntry, entryCommand)
 	// the updated list may be computed by a helper handed the notebook and the
